@@ -91,6 +91,30 @@ def multipitch_case(draw):
     return c
 
 
+@st.composite
+def boundary_span_case(draw):
+    """boundary detection / deviation accept annotations with DIFFERENT spans (only the structure metrics need equal spans)"""
+    t0a = draw(st.sampled_from([0.0, 0.0, 0.5, 2.0]))
+    Ta = t0a + draw(st.integers(2, 40)) / 2
+    a = draw(gs.partition(Ta, q=8, t0=t0a))
+    t0b = draw(st.sampled_from([0.0, 0.5, 1.0, 3.0]))
+    Tb = t0b + draw(st.integers(2, 40)) / 2
+    b = draw(gs.partition(Tb, q=8, t0=t0b))
+    return {"a": a, "b": b, "window": draw(st.sampled_from([0.5, 3.0, 0.25, 1.0])), "trim": draw(st.booleans())}
+
+
+def pred_boundary_span(case, ctx):
+    a, b, w, trim = _a(case["a"]).reshape(-1, 2), _a(case["b"]).reshape(-1, 2), case["window"], case["trim"]
+    nt = _swap3("segment.detection(trim=%s, different spans)" % trim, ctx.call(segment.detection, a, b, window=w, trim=trim),
+                ctx.call(segment.detection, b, a, window=w, trim=trim), case)
+    d1, d2 = ctx.call(segment.deviation, a, b, trim=trim), ctx.call(segment.deviation, b, a, trim=trim)
+    _eq("deviation ref-to-est(a,b) = est-to-ref(b,a)", d1[0], d2[1], case)
+    _eq("deviation est-to-ref(a,b) = ref-to-est(b,a)", d1[1], d2[0], case)
+    if trim:
+        ctx.event("trim")
+    return len(a) != len(b) and nt
+
+
 def pred_multipitch(case, ctx):
     t = _a(case["ref_time"])
     if len(t) == 0:
@@ -162,6 +186,8 @@ SUBPROPS = [
     SubProp("beat_onset", pred_events, strategy=events_case, n=(1500, 30000), shards=(2, 8), floor=0.15, rule="NT = |a| != |b| and P != R"),
     SubProp("segment_chordseg", pred_segment, strategy=gs.segmentation_pair, n=(800, 20000), shards=(4, 8), floor=0.15,
             rule="boundary detection/deviation (trim on/off), pairwise, Rand, ARI, MI/AMI/NMI, NCE, V-measure, chord over/under-segmentation; NT = different numbers of segments and some P != R"),
+    SubProp("boundaries_different_spans", pred_boundary_span, strategy=boundary_span_case, n=(800, 20000), shards=(2, 8), floor=0.15,
+            rule="segment.detection / deviation on annotations whose first start and last end differ, trim on/off; NT = different numbers of segments and P != R"),
     SubProp("multipitch", pred_multipitch, strategy=multipitch_case, n=(800, 20000), shards=(2, 8), floor=0.15, rule="same time base; NT = different pitch counts and P != R"),
     SubProp("transcription", pred_transcription, strategy=gt.notes_case, n=(1000, 25000), shards=(2, 8), floor=0.15,
             rule="onset-only and offset_ratio=None matching; NT = different note counts and P != R"),
